@@ -32,11 +32,13 @@ def _bin(op, a, b):
 
 
 class Folder(object):
-    def __init__(self, f, rd, env, consts=None):
+    def __init__(self, f, rd, env, consts=None, dead_node=None):
         self.f = f
         self.rd = rd
         self.env = env
         self.consts = consts or {}
+        self.dead_node = dead_node      # callback(node) -> True if the node cannot execute under env
+        self._busy = set()
 
     def fold(self, i, at=None, depth=0):
         f = self.f
@@ -56,8 +58,10 @@ class Folder(object):
             if o is not None:
                 v = self.env.get(o)
                 return frozenset(v) if v is not None else None
-            if n.get("op") in ("==", "!=") and n.get("a") and "o" not in n and len(n["a"]) == 2:
+            if n.get("op") in ("==", "!=", "&", "|") and n.get("a") and "o" not in n and len(n["a"]) == 2:
                 return self._binop(n["op"], n["a"][0], n["a"][1], at, depth)
+            if n.get("op") in ("==", "!=", "&", "|") and "o" in n and len(n.get("a", ())) == 1:
+                return self._binop(n["op"], n["o"], n["a"][0], at, depth)
             c = n.get("c") or ""
             if c.split("::")[-1].startswith("operator ") and "o" in n:
                 return self.fold(n["o"], at, depth + 1)
@@ -73,6 +77,20 @@ class Folder(object):
                 defs = self.rd.at(pos, var_id(n))
                 if not defs:
                     return None
+                if self.dead_node is not None and len(defs) > 1:
+                    live = []
+                    for d in defs:
+                        key = d[1]["i"]
+                        if key in self._busy:
+                            live.append(d)
+                            continue
+                        self._busy.add(key)
+                        try:
+                            if not self.dead_node(d[1]):
+                                live.append(d)
+                        finally:
+                            self._busy.discard(key)
+                    defs = live or defs
                 def_blocks = set(f.nblock[d[1]["i"]] for d in defs)
                 for info in defs:
                     rhs = self.rd.rhs_of(info)
